@@ -102,7 +102,78 @@ def real_spec(rng, algo):
             "auer_empirical": (rng.random() < 0.5) if algo == "Auer-real" else False, "obs_noise": noise}
 
 
+def stale_width_probe(rng, algo):
+    """ellipsoidal PaVeBa-family run in which design 0 enters P in round 1 and is NOT useful (its region
+    freezes with the round-1 width); designs 1 and 2 keep each other in S and later move to a place
+    where 'can design 0 still eps-cover design 1' depends on design 0's OWN (stale) width"""
+    import math
+    m, K, delta = 2, 3, 0.1
+    eps = rng.choice([0.25, 0.5])
+    h = rng.choice([0.25, 0.5])
+    def scale(r):
+        if algo == "PaVeBaGP-DE":
+            return 8 * m * math.log(6) + 4 * math.log(math.pi ** 2 * r ** 2 * K / (6 * delta))
+        if algo == "PaVeBaPartialGP-ell":
+            return 2 * math.log(math.pi ** 2 * r ** 2 * K / (3 * delta))
+        return math.sqrt(8 * 0.01 / r * math.log(math.pi ** 2 * (m + 1) * K * r ** 2 / (6 * delta)))
+    R = rng.choice([3, 4, 5])
+    ratio = scale(R) / scale(1)
+    theta = (3 + ratio) * h / (2 * math.sqrt(2))          # between sqrt(2) h and (1+ratio) h / sqrt(2)
+    dprime = eps - theta
+    g = 2.0 ** 10
+    dprime = math.floor(dprime * g) / g
+    far1 = [-5.0, 5.0]; far2 = [-5.0 + h / 4, 5.0 + h / 4]
+    near1 = [-dprime, -dprime]; near2 = [-dprime - h / 4, -dprime + h / 4]
+    means, hws = [], []
+    for r in range(R + 2):
+        if r < R:
+            means.append([[0.0, 0.0], far1, far2])
+        else:
+            means.append([[0.0, 0.0], near1, near2])
+        hws.append([[h, h]] * K)
+    X = [[0.0, 0.0], [0.25, 0.0], [0.5, 0.0]]
+    return {"algo": algo, "cone": "orthant2", "W": gen.CONES_2D["orthant2"][0], "X": X, "Y": [[0.0, 0.0], near1, near2], "eps": eps,
+            "valid_by_construction": False, "style": "stale-width-probe", "means": means, "hw": hws, "batch": 1, "contraction": 1.0,
+            "costs": None, "budget": None, "auer_empirical": False, "no_shrink": True}
+
+
+def cover_adversarial(rng, algo):
+    """valid history for VOGP with a cone wider than the orthant: design 1 dominates design 0 beyond the
+    eps-slack while being WORSE in one objective; design 0 stays very uncertain in one objective for the
+    first rounds (so it cannot be discarded early and the eps-covering test decides its fate)"""
+    import numpy as _np
+    cone = rng.choice(["obtuse2", "wide2"])
+    W = gen.CONES_2D[cone][0]
+    Wn = _np.array(W, dtype=float)
+    eps = rng.choice([0.125, 0.25, 0.5])
+    a, b = rng.choice([(4.0, 0.5), (0.5, 4.0), (3.0, 0.25)])
+    v = _np.linalg.solve(Wn, _np.array([a, b]))                     # in the cone, one negative component
+    v = v / max(abs(v))
+    lam = rng.choice([0.5, 1.0, 2.0])
+    yj = 1.5 * eps * _np.array([0.75, 0.75]) + lam * v
+    g = 2.0 ** 8
+    yj = _np.round(yj * g) / g
+    K = rng.choice([2, 3])
+    Y = [[0.0, 0.0], [float(yj[0]), float(yj[1])]] + ([[-6.0, -6.5]] if K == 3 else [])
+    X = [[(k % 4) / 4.0, (k // 4) / 4.0] for k in range(K)]
+    R = 8
+    wide = 0 if v[0] < 0 else 1
+    means, hws = [], []
+    for r in range(R + 1):
+        small_h = 2.0 ** (-(r + 3))
+        big_h = 2.0 ** (3 - r)                                   # huge in one objective, shrinking
+        h0 = [small_h, small_h]; h0[rng.choice([wide, 1 - wide]) if r == 0 else wide] = big_h
+        hws.append([h0, [small_h, small_h]] + ([[small_h, small_h]] if K == 3 else []))
+        means.append([list(y) for y in Y])
+    return {"algo": algo, "cone": cone, "W": W, "X": X, "Y": Y, "eps": eps, "valid_by_construction": True, "style": "cover-adversarial",
+            "means": means, "hw": hws, "batch": rng.choice([1, 1, 2]), "contraction": 1.0, "costs": None, "budget": None, "auer_empirical": False}
+
+
 def make_spec(rng, algo, valid=None, small=True):
+    if algo == "VOGP" and valid is not False and rng.random() < 0.3:
+        return cover_adversarial(rng, algo)
+    if algo in ("PaVeBa", "PaVeBaGP-DE", "PaVeBaPartialGP-ell") and valid is not True and rng.random() < 0.25:
+        return stale_width_probe(rng, algo)
     if algo.endswith("-real"):
         return real_spec(rng, algo)
     if algo == "Auer" and rng.random() < 0.3:
@@ -136,13 +207,18 @@ def make_spec(rng, algo, valid=None, small=True):
     R = rng.randint(2, 6)
     means, hws = [], []
     base = rng.choice([0.25, 0.5, 1.0, 2.0])
-    style = rng.choice(["center", "corner", "aniso", "same", "touch"]) if valid else rng.choice(["wild", "wild", "same", "touch"])
+    style = rng.choice(["center", "corner", "aniso", "same", "touch"]) if valid else rng.choice(["wild", "drift", "drift", "same", "touch"])
     auer_emp = (rng.random() < 0.6) if algo == "Auer" else False
     if auer_emp:
         style = "aniso" if valid else "wild"
     design_factor = [rng.choice([0.25, 0.5, 1.0, 2.0, 4.0]) for _ in range(K)]
+    if style == "drift":
+        R = rng.randint(4, 7)
+        far = [rng.choice([-1, 1]) * rng.choice([1.5, 2.0, 3.0]) for _ in range(m)]
+        anchor = [dy(rng, -1, 1, 8) for _ in range(m)]
+        others = [[dy(rng, -2, 2, 8) for _ in range(m)] for _ in range(K)]
     for r in range(R + 1):
-        shrink = base / (2 ** r)
+        shrink = base / (2 ** r) if style != "drift" else base / 2
         mu, hw = [], []
         for k in range(K):
             if auer_emp:
@@ -163,6 +239,15 @@ def make_spec(rng, algo, valid=None, small=True):
                 if reg == "ell":
                     off = [x * 0.5 for x in off]          # stay inside the ball, not just the bounding box
                 mu.append([a + b for a, b in zip(Y[k], off)])
+            elif style == "drift":
+                # design 0 fixed; design 1 drifts from far away towards (and past) design 0; the rest fixed
+                if k == 0:
+                    mu.append(list(anchor))
+                elif k == 1:
+                    f = 1.0 - 1.25 * r / R
+                    mu.append([a + f * d for a, d in zip(anchor, far)])
+                else:
+                    mu.append(list(others[k]))
             else:
                 mu.append([dy(rng, -2, 2, 16) for _ in range(m)])
             hw.append(h)
